@@ -204,6 +204,26 @@ equation
 end Pump;
 """},
     },
+    "Pkg.Inner": {
+        # a model inside a package: the model name (and with it the cache file name) contains a dot
+        "model": {"Pkg.mo": """package Pkg
+  constant Real c0 = {c};
+  model Base
+    parameter Real k = {a};
+    Real x(start = {b});
+  equation
+    der(x) = -k * x;
+  end Base;
+  model Inner
+    extends Base(k = {d});
+    Real y(max = {b}0);
+{EXTRA_DECL}  equation
+    y = x * Pkg.c0;
+{EXTRA_EQ}  end Inner;
+end Pkg;
+"""},
+        "lib": {},
+    },
     "NeedsAdd": {
         "model": {"NeedsAdd.mo": """model NeedsAdd
   Added m(g = {a});
